@@ -311,3 +311,6 @@ fn t_ord_interval_delegates() {
     if a == b { assert!(a.cmp(&b) == Ordering::Equal, "T-ord#eq_implies_cmp_equal"); }
     std::mem::forget(a); std::mem::forget(b);
 }
+
+// concrete-playback replay slot (see lib/kani_run.py: replay); empty except while a counterexample is being replayed
+include!("verif_kani.playback.rs");
